@@ -133,5 +133,59 @@ def convex_star(m):
     same = all(x >= 0 for x in t) or all(x <= 0 for x in t)
     return same and "Ok((true" in m.get("detail", {}).get("got", "") and m.get("detail", {}).get("want", "").startswith("(false")
 
+# ---- extensions X07 - X09 (classes of inputs; the harness gives every class its own sub-name, the case carries the class flags)
+def segmentize_zero_length(m):
+    """line_segmentize(n >= 2) of a curve without length (no vertex, one vertex, all vertices equal): panics on an internal
+    assertion (max_segment_length > 0) or returns Some of one empty line string instead of None / n pieces."""
+    return m.get("sub") in ("zero_length_input", "hav_zero_length_input") and m.get("case", {}).get("zero") is True
 
-PREDS = {f.__name__: f for f in [convex_star, mls_even_shared_endpoint, sweep_inexact_crossing, gc_all_members_empty, monotone_tjunction_panic, stitch_hole_chain]}
+
+def segmentize_repeated_vertex(m):
+    """line_segmentize on a line string with a repeated vertex returns a wrong number of pieces (an extra zero-length piece after
+    a repeated final vertex; the haversine variant also loses a piece on a repeated first vertex)."""
+    return str(m.get("sub", "")).endswith("_repeated_vertex") and m.get("case", {}).get("repeats") is True
+
+
+def segmentize_piece_count_off_by_one(m):
+    """line_segmentize(n) on a plain line string (no repeated vertex) returns n - 1 pieces: the running length reaches the
+    segment length only up to rounding (cum_length >= segment_length fails by an ulp), so one cut is skipped."""
+    c, d = m.get("case", {}), m.get("detail", {})
+    if m.get("sub") not in ("piece_count", "equal_piece_lengths", "hav_piece_count", "hav_equal_piece_lengths"):
+        return False
+    got, n = d.get("got"), d.get("n")
+    return c.get("repeats") is False and c.get("zero") is False and isinstance(got, list) and isinstance(n, int) and len(got) == n - 1
+
+
+def knearest_hull_not_simple(m):
+    """k_nearest_concave_hull returns a ring that repeats a vertex or crosses itself: the closing edge is never tested against
+    the hull built so far, and duplicated input points with a zero coordinate are not removed (float_equal(0, 0) is false)."""
+    return m.get("sub") in ("knearest_simple_ring", "knearest_duplicated_points_simple_ring")
+
+
+def hav_closest_pole_of_circle(m):
+    """haversine_closest_point(arc, P) with P a pole of the arc's great circle (every point of the arc equally far): the Line
+    form returns SinglePoint(NaN NaN), the LineString form Indeterminate."""
+    return m.get("case", {}).get("any") is True and ("closest_equidistant" in str(m.get("sub")) or "closest_is_a_point" in str(m.get("sub")))
+
+
+def hav_closest_arc_over_pole(m):
+    """haversine_closest_point on an arc that passes over a pole (or ends at a pole spelled with the opposite meridian): the
+    reverse course is taken as forward course +-180 degrees, so foot, distance and the Intersection / SinglePoint decision
+    are wrong."""
+    return "_over_pole_" in str(m.get("sub")) and m.get("case", {}).get("arc") == "over_pole"
+
+
+def hav_closest_foot_at_end_precision(m):
+    """haversine_closest_point when the foot coincides with an end of the arc: up to 0.3 m off (acos near 1)."""
+    return str(m.get("sub", "")).endswith(("_foot_at_start", "_foot_at_end"))
+
+
+def hav_closest_other_spelling(m):
+    """haversine_closest_point returns SinglePoint of the right point instead of Intersection when P is on the arc but written
+    with another spelling of the same point (longitude 180 / -180, a pole with another longitude)."""
+    return str(m.get("sub", "")).endswith("_other_spelling")
+
+
+PREDS = {f.__name__: f for f in [convex_star, mls_even_shared_endpoint, sweep_inexact_crossing, gc_all_members_empty, monotone_tjunction_panic, stitch_hole_chain,
+                                     segmentize_zero_length, segmentize_repeated_vertex, segmentize_piece_count_off_by_one, knearest_hull_not_simple,
+                                     hav_closest_pole_of_circle, hav_closest_arc_over_pole, hav_closest_foot_at_end_precision, hav_closest_other_spelling]}
